@@ -147,9 +147,9 @@ static Plan gen_c16(uint64_t seed, const std::string &tier) {
     std::string cfg = gen_known_config(r, w);
     // duplicate / invalid options
     static const char *dups[] = {"message_format = first %{uid}\n", "filter_chain = only_uid:0\n", "output = file:/log/dup.log\n", "syslog_ident = dup-%{uid}\n", "output = socket:/run/snoopy-0.sock\n",
-        "syslog_facility = nonsense\n", "error_logging = maybe\n", "datasource_message_max_length = x\n", "filter_chain = exclude_spawns_of:\n", "filter_chain = exclude_spawns_of:,\n", "filter_chain = only_uid:;exclude_uid:\n", "output = stdout:arg\n"};
+        "syslog_facility = nonsense\n", "error_logging = maybe\n", "datasource_message_max_length = x\n", "filter_chain = exclude_spawns_of:\n", "filter_chain = exclude_spawns_of:,\n", "filter_chain = only_uid:;exclude_uid:\n", "output = stdout:arg\n", "half edited line\n", "[snoopy\n", "syslog_ident\n"};
     int nd = (int)r.range(1, 4);
-    for (int i = 0; i < nd; i++) cfg += dups[r.below(12)];
+    for (int i = 0; i < nd; i++) cfg += dups[r.below(15)];
     if (r.chance(1, 2)) cfg += "message_format = last %{cmdline} %{rpname} %{tty_username} %{cgroup:0}\n";
     p.ops.push_back(op_setconfig(cfg));
     ExecOp e = gen_exec(r, "r_", (int)r.below(2)); e.success = false;
